@@ -86,6 +86,11 @@ impl World {
         let users_json: Vec<serde_json::Value> = users.iter().map(|(n, p)| serde_json::json!({"name": n, "password": p})).collect();
         let mut sj = serde_json::json!({"host": "127.0.0.1", "port": server_port, "password": server_password, "protocol": protocol, "cipher": cipher, "mode": mode, "user": users_json});
         let mut cj = serde_json::json!({"host": "127.0.0.1", "port": link_port, "password": client_password, "protocol": protocol, "cipher": cipher, "mode": client_mode.unwrap_or(mode)});
+        if cipher == "(none)" {
+            // the configuration names no cipher at all
+            sj.as_object_mut().unwrap().remove("cipher");
+            cj.as_object_mut().unwrap().remove("cipher");
+        }
         if ws {
             sj["ws"] = serde_json::json!({"path": "/ws"});
             cj["ws"] = serde_json::json!({"path": "/ws", "header": {"Host": "127.0.0.1"}});
